@@ -799,8 +799,16 @@ pub fn random_schema(rng: &mut Rng, cfg: &SchemaGenCfg) -> SchemaModel {
             let target = rng.pick(&type_names).clone();
             let list = rng.chance(60);
             let n_params = if rng.chance(30) { rng.range(1, 2) } else { 0 };
-            let params =
-                (0..n_params).map(|k| random_param(rng, format!("a{k}"))).collect::<Vec<_>>();
+            let params = (0..n_params)
+                .map(|k| {
+                    let pname = if cfg.hostile_names && rng.chance(50) {
+                        format!("{}{}", rng.pick(&["type", "fn", "match", "a_b", "aB", "self_", "ref", "move"]), k)
+                    } else {
+                        format!("a{k}")
+                    };
+                    random_param(rng, pname)
+                })
+                .collect::<Vec<_>>();
             edges.push(EdgeDef {
                 doc: doc(rng, &name),
                 name,
